@@ -344,7 +344,7 @@ class Gen:
         """affine lattice image of a box / prism / pyramid / octahedron / tetrahedron"""
         R = self.R
         kind = R.choice(['box', 'prism', 'pyramid', 'octa', 'tetra'])
-        if R.random() < (0.25 if self.tiny else 0.04):
+        if R.random() < (0.25 if self.tiny else 0.08):
             # the unit cube [-2,-1] x [0,1]^2 (up to the axis): its opposite faces, and four pairs of its vertices, hash alike
             ax = R.randrange(3)
             vs = []
